@@ -26,6 +26,10 @@ CLAIMED = {
    "Structural conditions decided on every run: every implementation of Assumption.Compare that runs a hypothesis test returns on every path (paths enumerated by abstract interpretation, small Sample helpers inlined) a Comparison whose Alpha is verbatim the first sample's threshold, with N1/N2 and the test's argument order tied to the right samples; benchmath.Sample is only constructed from a slice sorted in the constructor and Sorted:true is only claimed for such values; process-wide memo tables are keyed verbatim by every input; FormatDelta's and PctRangeString's complete decision tables and arithmetic equal the documented rendering rules (formula identity decided over the rationals at sample points of both signs); the summary wiring of the three models.",
    "Does not decide coverage, exactness, symmetry or invariance of the p-values and intervals themselves (those are numerical properties of go-moremath and internal/stats), nor the mode scan's arithmetic. Trusted: go/types, go/ssa, the rendering tables in DESIGN Appendix A4 as corrected for negative centres.",
    "path enumeration by abstract interpretation of SSA + rational-function identity testing + memo-key dataflow + constructor site rules"),
+ "C20": ("DESIGN.md §4 C20",
+   "Structural conditions decided on every run, each a path or pairing rule over the SSA/CFG: after an upload is created no path reaches a return without the deferred abort being registered, the abort fires iff the upload variable is non-nil and the variable is cleared only on Commit's success edge, Commit is reachable only when NextPart returned exactly io.EOF; the file writer is paired with a deferred close that discards on error and propagates Close's error; no error-returning call on the upload path drops its error except reviewed clean-up calls, and non-nil errors of progress calls return; db.Upload runs SQL only through its own transaction; NewUpload reads and inserts the ID in one committed transaction and hands the records a separate later transaction; the client's and server's field names agree; every CloseWithError discards.",
+   "Does not decide database isolation, uniqueness under truly concurrent NewUpload beyond the single-transaction shape, mime/multipart's behaviour on truncated bodies, or fs implementations outside the repository. Trusted: go/types, go/ssa, database/sql and mime/multipart documentation.",
+   "typestate/pairing rules over SSA CFG paths + error-use dataflow + who-may-call rules"),
 }
 
 NOT_YET = "check not built yet in this round (planned in DESIGN.md); not claimed until its rules run clean on the unchanged tree"
